@@ -46,11 +46,16 @@ func main() {
 		unsupported(fset, f, "pub/transport.go no longer imports sync")
 	}
 	tmp := 0
+	chosen := map[ast.Stmt]bool{} // communications of a select case the scheduler has already chosen: they cannot block
 	// rewrite statement lists
 	var rewriteList func(list []ast.Stmt) []ast.Stmt
 	rewriteList = func(list []ast.Stmt) []ast.Stmt {
 		var out []ast.Stmt
 		for _, st := range list {
+			if chosen[st] {
+				out = append(out, st)
+				continue
+			}
 			switch s := st.(type) {
 			case *ast.GoStmt:
 				// evaluate the arguments now, run the call on a controlled thread
@@ -92,18 +97,58 @@ func main() {
 					out = append(out, &ast.ExprStmt{X: &ast.CallExpr{Fun: &ast.SelectorExpr{X: ast.NewIdent("sync"), Sel: ast.NewIdent("BeforeRecv")}, Args: []ast.Expr{ready}}})
 				}
 			case *ast.SelectStmt:
+				// select { case comm_i: body_i ... [default: body] }  becomes
+				//   switch sync.Select(hasDefault, ready_0, ready_1, ...) { case i: comm_i; body_i ... case -1: body }
+				// Select is a scheduling point that is enabled when some case is ready (or there is a
+				// default) and then lets the explorer choose among the ready cases - the choice Go makes
+				// at random. Readiness: send = room in the buffer; receive from x.Done() = closed
+				// (probed without consuming); any other receive = a value is buffered.
 				hasDefault := false
+				var readies []ast.Expr
+				sw := &ast.SwitchStmt{Body: &ast.BlockStmt{}}
+				boolFn := func(e ast.Expr) ast.Expr {
+					return &ast.FuncLit{Type: &ast.FuncType{Params: &ast.FieldList{}, Results: &ast.FieldList{List: []*ast.Field{{Type: ast.NewIdent("bool")}}}},
+						Body: &ast.BlockStmt{List: []ast.Stmt{&ast.ReturnStmt{Results: []ast.Expr{e}}}}}
+				}
+				idx := 0
 				for _, c := range s.Body.List {
-					if cc := c.(*ast.CommClause); cc.Comm == nil {
+					cc := c.(*ast.CommClause)
+					if cc.Comm == nil {
 						hasDefault = true
-					} else if _, isSend := cc.Comm.(*ast.SendStmt); isSend {
-						unsupported(fset, cc, "send inside select")
+						sw.Body.List = append(sw.Body.List, &ast.CaseClause{List: []ast.Expr{&ast.UnaryExpr{Op: token.SUB, X: &ast.BasicLit{Kind: token.INT, Value: "1"}}}, Body: cc.Body})
+						continue
 					}
+					var ready ast.Expr
+					switch cm := cc.Comm.(type) {
+					case *ast.SendStmt:
+						ready = &ast.BinaryExpr{X: &ast.CallExpr{Fun: ast.NewIdent("len"), Args: []ast.Expr{cm.Chan}}, Op: token.LSS, Y: &ast.CallExpr{Fun: ast.NewIdent("cap"), Args: []ast.Expr{cm.Chan}}}
+					default:
+						chs := receivesOf(cc.Comm)
+						if len(chs) != 1 {
+							unsupported(fset, cc, "select case that is neither a send nor a single receive")
+						}
+						ch := chs[0]
+						if call, ok := ch.(*ast.CallExpr); ok {
+							if sel, ok := call.Fun.(*ast.SelectorExpr); ok && sel.Sel.Name == "Done" && len(call.Args) == 0 {
+								ready = &ast.CallExpr{Fun: &ast.SelectorExpr{X: ast.NewIdent("sync"), Sel: ast.NewIdent("Closed")}, Args: []ast.Expr{ch}}
+							}
+						}
+						if ready == nil {
+							ready = &ast.BinaryExpr{X: &ast.CallExpr{Fun: ast.NewIdent("len"), Args: []ast.Expr{ch}}, Op: token.GTR, Y: &ast.BasicLit{Kind: token.INT, Value: "0"}}
+						}
+					}
+					readies = append(readies, boolFn(ready))
+					chosen[cc.Comm] = true
+					sw.Body.List = append(sw.Body.List, &ast.CaseClause{List: []ast.Expr{&ast.BasicLit{Kind: token.INT, Value: strconv.Itoa(idx)}}, Body: append([]ast.Stmt{cc.Comm}, cc.Body...)})
+					idx++
 				}
-				if !hasDefault {
-					unsupported(fset, s, "blocking select")
+				hd := "false"
+				if hasDefault {
+					hd = "true"
 				}
-				out = append(out, &ast.ExprStmt{X: &ast.CallExpr{Fun: &ast.SelectorExpr{X: ast.NewIdent("sync"), Sel: ast.NewIdent("BeforeSelect")}}})
+				sw.Tag = &ast.CallExpr{Fun: &ast.SelectorExpr{X: ast.NewIdent("sync"), Sel: ast.NewIdent("Select")}, Args: append([]ast.Expr{ast.NewIdent(hd)}, readies...)}
+				out = append(out, sw)
+				continue
 			}
 			out = append(out, st)
 		}
@@ -120,6 +165,9 @@ func main() {
 		case *ast.LabeledStmt:
 			if g, ok := x.Stmt.(*ast.GoStmt); ok {
 				unsupported(fset, g, "labelled go statement")
+			}
+			if g, ok := x.Stmt.(*ast.SelectStmt); ok {
+				unsupported(fset, g, "labelled select statement")
 			}
 		case *ast.UnaryExpr:
 			if x.Op == token.ARROW {
